@@ -1,4 +1,5 @@
 import Rbacx.Proofs.EvaluateSpec
+import Rbacx.Proofs.SetSpec
 /-
   C02 — Combining algorithms decide as specified (reference evaluator).
 
@@ -106,5 +107,52 @@ theorem c02_none_applicable (cx : CondCtx) (dflt : String) (p : PyVal) (outs : L
     simp [specPO, hfind _ hP, hlast _ hD, rawNone]
   · refine ⟨_, evaluate_first_applicable cx dflt p outs ha ho, ?_⟩
     simp [specFA, hfind _ (fun _ h => h), rawNone]
+
+end Rbacx.C02
+
+/-! ### policy sets, at any nesting depth -/
+
+namespace Rbacx.C02
+open Rbacx
+
+/-- **a policy set combines its children by the same three algorithms, counting a child as applicable only if one of its
+    rules was, at any nesting depth, and reports the id of the deciding child**: whenever the documented result
+    `Spec.tree` is defined (every level names one of the three algorithms or none, no rule raises), the set evaluator
+    returns it — same decision, same applicability, and (for a set) the deciding child's id.  `RulesOk` is what the schema
+    guarantees about applicable rules: a string id and effect permit/deny.
+    `Spec.tree` is written without loops or breaks: a leaf is applicable iff one of its rules applied
+    (`outs.any applied`) and decides by `specDecisionDO/PO/FA`; a set keeps its applicable children and takes the first
+    deny (deny-overrides), the first permit (permit-overrides) or the first child (first-applicable). -/
+theorem c02_set (cx : CondCtx) (interpDflt setDflt : String) (t : PTree) (r : Spec.Res)
+    (hok : RulesOk cx (treeRules t)) (hs : Spec.tree cx interpDflt setDflt t = some r) :
+    ∃ raw, decideTree cx interpDflt setDflt t = .ok raw ∧ raw.decision = r.decision ∧ isApplicable raw = r.applicable ∧
+      (isNode t = true → r.applicable = true → raw.policyId = r.policyId) := by
+  obtain ⟨raw, h1, h2, h3, _, h5⟩ := tree_view cx interpDflt setDflt t r hok hs
+  exact ⟨raw, h1, h2, h3, h5⟩
+
+/-- a set none of whose rules (at any depth) applies denies and is not applicable -/
+theorem c02_set_leaf_applicable (algo : String) (outs : List Outcome) :
+    (Spec.leaf algo outs).applicable = outs.any Outcome.applied := rfl
+
+theorem c02_set_combine_none (algo : String) (halgo : Spec.knownAlgo algo = true) (ks : List (PyVal × Spec.Res))
+    (h : ∀ k ∈ ks, k.2.applicable = false) :
+    (Spec.combine algo ks).decision = "deny" ∧ (Spec.combine algo ks).applicable = false := by
+  have hf : ks.filter (·.2.applicable) = [] := by
+    rw [List.filter_eq_nil_iff]; intro k hk; simp [h k hk]
+  simp only [Spec.knownAlgo, Bool.or_eq_true, beq_iff_eq] at halgo
+  rcases halgo with (rfl | rfl) | rfl <;> simp [Spec.combine, hf]
+
+/-- non-vacuity: a nested set in which an inner deny-overrides set is overridden by an outer permit-overrides set -/
+example : ∀ o : Oracle,
+    let rule (rid eff : String) : PyVal := .dict [("id", .str rid), ("effect", .str eff), ("actions", .list [.str "read"]),
+      ("resource", .dict [("type", .str "doc")])]
+    let inner : PyVal := .dict [("id", .str "inner"), ("algorithm", .str "deny-overrides"),
+      ("policies", .list [.dict [("id", .str "a"), ("rules", .list [rule "p" "permit"])],
+                          .dict [("id", .str "b"), ("rules", .list [rule "d" "deny"])]])]
+    let outer : PyVal := .dict [("algorithm", .str "permit-overrides"),
+      ("policies", .list [inner, .dict [("id", .str "c"), ("rules", .list [rule "q" "permit"])]])]
+    let cx : CondCtx := { o, env := .dict [("action", .str "read"), ("resource", .dict [("type", .str "doc")])], checker := none }
+    (Spec.tree cx "deny-overrides" "deny-overrides" (treeOf outer)).map (fun r => (r.decision, r.applicable)) = some ("permit", true) := by
+  intro o; rfl
 
 end Rbacx.C02
